@@ -50,10 +50,12 @@ Definition wstep (p : program) (s : vmstate) (w : list N) : list N :=
 
 Inductive reach_w (p : program) : vmstate -> list N -> Prop :=
 | rw_init : reach_w p (vm_init p) []
-| rw_step s w s' : reach_w p s w -> vm_step p s = Running s' -> reach_w p s' (wstep p s w).
+| rw_step s w s' : reach_w p s w -> vm_step p s = Running s' -> reach_w p s' (wstep p s w)
+(* as in reachable_h: the contents of arrays and maps may change behind the model's back *)
+| rw_heap s w s' : reach_w p s w -> perturbed s s' -> reach_w p s' w.
 
-Lemma reach_w_reachable p s w : reach_w p s w -> reachable p s.
-Proof. induction 1; [constructor|econstructor; eauto]. Qed.
+Lemma reach_w_reachable_h p s w : reach_w p s w -> reachable_h p s.
+Proof. induction 1; [constructor|eapply rh_step; eauto|eapply rh_heap; eauto]. Qed.
 
 (* where one step of the machine can go *)
 Lemma with_stack_ip s next stk s' : with_stack s next stk = Running s' -> ip s' = next.
@@ -121,7 +123,7 @@ Proof.
     by (intros pc i HI; apply (HS pc i HI)).
   (* the safety invariant and the written-set invariant together *)
   assert (INV : vinv p h s /\ (ip s = codelen (info_of p) \/ exists w0, c (ip s) = Some w0 /\ incl w0 w)).
-  { induction HR as [|s w s' HR IH Hstep].
+  { induction HR as [|s w s' HR IH Hstep|s w s' HR IH HP].
     - split.
       + split; [split; simpl; rewrite repeat_length; lia|].
         destruct (pcode p) as [|b t] eqn:EC.
@@ -140,7 +142,9 @@ Proof.
         * destruct (HC _ _ _ HI Hc) as [_ HSu]. destruct (HSu _ Hsucc) as [E|(w' & Hc' & Hi')]; [left; exact E|].
           right. exists w'. split; [exact Hc'|]. unfold wstep. rewrite Hf.
           intros x Hx. apply Hi' in Hx. unfold lout in *. destruct (opc_of_N (iop i)) as [[]|]; auto.
-          destruct Hx as [Hx|Hx]; [left; exact Hx|right; apply Hincl; exact Hx]. }
+          destruct Hx as [Hx|Hx]; [left; exact Hx|right; apply Hincl; exact Hx].
+    - destruct IH as [IV IW]. split; [apply (vinv_perturbed p h s s' IV HP)|].
+      destruct HP as (Hip & _). rewrite Hip. exact IW. }
   destruct INV as [IV [IW|(w0 & Hc & Hincl)]]; intros i Hf Hlt HO.
   - unfold codelen in IW. simpl in IW. lia.
   - destruct IV as [_ [[Hip _]|[_ (a & Ha & _)]]]; [unfold codelen in Hip; simpl in Hip; lia|].
